@@ -441,6 +441,19 @@ class DocGen:
                         if plain and r.random() < 0.35:
                             k2 = r.choice(plain)
                             extra["properties"][k2] = copy.deepcopy(inherited[k2][0])
+                        # ... or narrows an inherited reference property to a model that EXTENDS the referenced one (pet: Animal -> pet: Cat)
+                        refs = []
+                        for k2, (ps, rq) in inherited.items():
+                            if isinstance(ps, dict) and set(ps) == {"$ref"}:
+                                a_ = ps["$ref"].rsplit("/", 1)[1]
+                                if (self.schemas.get(a_) or {}).get("additionalProperties") is False:
+                                    continue  # (a closed model read through its own class would drop the extension's properties)
+                                for b_, sb in self.schemas.items():
+                                    if b_ != nm and isinstance(sb, dict) and isinstance(sb.get("allOf"), list) and sb["allOf"] and sb["allOf"][0] == {"$ref": f"#/components/schemas/{a_}"}:
+                                        refs.append((k2, b_))
+                        if refs and r.random() < 0.5:
+                            k2, b_ = r.choice(refs)
+                            extra["properties"] = {k2: self.ref(b_), **extra["properties"]}
                         # ... or narrows the ITEMS of an inherited array (number -> integer, string -> date)
                         arrays = [k2 for k2, (ps, rq) in inherited.items() if isinstance(ps, dict) and ps.get("type") == "array" and "prefixItems" not in ps
                                   and ps.get("items") in ({"type": "number"}, {"type": "string"})]
